@@ -129,7 +129,7 @@ func Execute(t *testing.T, sc *Scenario, plan *Plan, ch *Chooser, maxSteps int, 
 			ctx, cancel = context.WithDeadline(context.Background(), time.Now().Add(ms(plan.CancelMs)))
 		}
 		neverCancel := false
-		if plan.X("ctx_deadline") == 3 && plan.CancelStep < 0 && plan.CancelMs == 0 && !plan.CancelAtEnd && plan.X("uses") <= 1 && plan.X("cancel_between") == 0 && plan.Twin == nil {
+		if plan.X("ctx_deadline") == 3 && plan.CancelStep < 0 && plan.CancelMs == 0 && !plan.CancelAtEnd && plan.X("uses") <= 1 && plan.X("cancel_between") == 0 && plan.Twin == nil && neverCancelBudget(plan) {
 			// a context that can never be cancelled (Done() == nil), for plans
 			// that never cancel: context.Background, TODO, WithoutCancel
 			cancel()
@@ -401,4 +401,35 @@ func twinPar(p *Plan) int {
 		return p.Twin.Par
 	}
 	return 0
+}
+
+// Under a context that cannot be cancelled, whatever does not end by itself
+// stays blocked for the life of the worker process (the clean-up has nothing to
+// cancel): goroutines of stages whose inputs never close or whose consumer
+// walked away, generators, pacers, the pump of an unbounded channel that nobody
+// closes. Plans of that kind get such a context only a limited number of times
+// per process, so that a worker executing millions of runs does not pile up
+// parked goroutines; plans in which everything ends by itself always may.
+var leakyNeverCancelRuns int
+
+func neverCancelBudget(p *Plan) bool {
+	leaky := false
+	for _, pr := range p.Producers {
+		leaky = leaky || pr.NoClose
+	}
+	for _, c := range p.Consumers {
+		leaky = leaky || c.Abandon >= 0
+	}
+	switch p.Stage {
+	case "Emit", "Unfold", "Throttling":
+		leaky = true
+	}
+	if p.Prop == "C08" && !p.SenderClose {
+		leaky = true
+	}
+	if !leaky {
+		return true
+	}
+	leakyNeverCancelRuns++
+	return leakyNeverCancelRuns <= 4000
 }
